@@ -308,6 +308,7 @@ pub fn features(schema: &Schema, doc: &Document) -> Features {
         let pname = schema.type_name(parent).to_string();
         let mut keys: Vec<String> = Vec::new();
         let mut variant_types: Vec<String> = Vec::new();
+        let mut inline_variant_types: Vec<String> = Vec::new();
         let has_data = sel.iter().any(|s| !matches!(s, Selection::Typename));
         if !parent.is_abstract() && !has_data && !sel.is_empty() {
             fs.set.insert("typename_only_concrete");
@@ -389,6 +390,7 @@ pub fn features(schema: &Schema, doc: &Document) -> Features {
                         if variant_types.contains(on) {
                             fs.set.insert("double_variant");
                         }
+                        inline_variant_types.push(on.clone());
                         variant_types.push(on.clone());
                     } else {
                         fs.set.insert("object_parent_fragment");
@@ -407,8 +409,11 @@ pub fn features(schema: &Schema, doc: &Document) -> Features {
                             }
                         } else if parent.is_abstract() {
                             fs.set.insert("variant_spread");
-                            if variant_types.contains(&f.on) {
+                            if inline_variant_types.contains(&f.on) {
                                 fs.set.insert("double_variant");
+                            } else if variant_types.contains(&f.on) {
+                                // two named fragments on one member type: two flattened parts (supported)
+                                fs.set.insert("double_variant_spreads");
                             }
                             variant_types.push(f.on.clone());
                         } else {
